@@ -42,6 +42,19 @@ void Attribute::read(h5x::DataType mem_type, const NDSize &size, std::string *da
 }
 
 void Attribute::write(h5x::DataType mem_type, const NDSize &size, const void *data) {
+    // On a file opened read-only H5Awrite fails, but only after it has copied
+    // the new value into the in-memory attribute, so that later reads in the same
+    // session return the value that was never stored. Refuse before writing.
+    hid_t fid = H5Iget_file_id(hid);
+    if (fid >= 0) {
+        unsigned intent = 0;
+        herr_t res = H5Fget_intent(fid, &intent);
+        H5Fclose(fid);
+        if (res >= 0 && !(intent & H5F_ACC_RDWR)) {
+            throw H5Exception("Attribute::write(): Could not write data, file is opened read-only");
+        }
+    }
+
     HErr status = H5Awrite(hid, mem_type.h5id(), data);
     status.check("Attribute::write(): Could not write data");
 }
